@@ -16,9 +16,10 @@ echo "== suite with the patch"
 cargo test --workspace --no-fail-fast --offline 2>&1 | grep -E "^test result" | awk '{p+=$4; f+=$6} END {print "passed="p" failed="f}'
 demo=$(ls SEED/demo.sh SEED/demo.py 2>/dev/null | head -1)
 echo "== demonstration with the patch ($demo)"
+cargo build --offline -q -p typstyle 2>/dev/null
 bash $demo > /tmp/demo-$id-with.log 2>&1; echo "exit=$?"; tail -5 /tmp/demo-$id-with.log
 echo "== demonstration without the patch"
-git apply -R SEED/patch.diff && bash $demo > /tmp/demo-$id-without.log 2>&1; echo "exit=$?"; tail -3 /tmp/demo-$id-without.log
-git apply SEED/patch.diff
+git apply -R SEED/patch.diff && cargo build --offline -q -p typstyle 2>/dev/null; bash $demo > /tmp/demo-$id-without.log 2>&1; echo "exit=$?"; tail -3 /tmp/demo-$id-without.log
+git apply SEED/patch.diff; cargo build --offline -q -p typstyle 2>/dev/null
 } > $out/confirm.log 2>&1
 cat $out/confirm.log
